@@ -91,6 +91,7 @@ def configs(draw, reps):
 class CrossProcess(Facet):
     name = "cross_process"
     fuzz_runs = 0  # every case spawns processes: too slow for a coverage-guided campaign
+    report_unshrunk = True  # ... and for Hypothesis' shrinker (hundreds of re-executions): a violation is reported as found
     reps = ("tree", "ge", "sge", "dsge")
 
     def budget(self, tier):
